@@ -155,10 +155,13 @@ CreateRoundEnd ==
 
 \* ---- one process_model attempt.  An alias re-processes the data of the schema it denotes, with that schema's roots.
 Subject(n) == Resolve(doc, n)
+\* An ALIAS (the copy made for a single-reference wrapper) takes over the property data of the model it denotes once that model
+\* has been processed, and waits for it otherwise (since the repair of the alias-of-inline defect: it used to re-process the
+\* same data and trip over the inline class it had already registered).
+IsAlias(n) == Shape(doc, n).k = "wrap"
 ProcOutcome(n) == LET u == Subject(n)  s == Shape(doc, u) IN
+  IF IsAlias(n) THEN (IF u \in processed THEN "ok" ELSE "retry") ELSE
   CASE s.k = "obj" -> "ok"
-    \* processing registers the inline class; an ALIAS re-processes the same data, so the second one to run finds the
-    \* inline class name taken ("Attempted to generate duplicate models") - a defect of the code, reproduced on purpose
     [] s.k = "objinl" -> IF <<"i", u>> \in cls THEN "retry" ELSE "ok"
     [] s.k \in {"objref", "objarr"} -> IF s.t \in byRef THEN "ok" ELSE "retry"
     [] s.k \in {"objbadprop", "objbaddef", "objrefbad"} -> "retry"
@@ -232,11 +235,11 @@ Finish ==
 
 Next == CreateTry \/ CreateRoundEnd \/ ProcessTry \/ ProcessRoundEnd \/ RemoveOne \/ Finish
 
-\* ------------------------------------------------------------------ known design defect (DESIGN section 8)
-\* a single-reference wrapper (alias) of an object schema that has an inline object property: both are removed with a
-\* spurious "duplicate models" diagnostic although the document is valid.  Confirmed on the real code; excluded from
-\* the "exactly" laws below so that TLC keeps checking everything else.
-AliasOfInline(d) == \E n \in DocNames(d) : Shape(d, n).k = "wrap" /\ Resolve(d, n) # "" /\ Shape(d, Resolve(d, n)).k = "objinl"
+\* ------------------------------------------------------------------ formerly a known design defect
+\* A single-reference wrapper (alias) of an object schema that has an inline object property used to remove both with a spurious
+\* "duplicate models" diagnostic although the document is valid; the laws below excluded such documents.  Repaired in the code
+\* (process_model takes over the data of the registered model); the predicate is kept, constantly FALSE, so that the laws read as before.
+AliasOfInline(d) == FALSE
 
 \* ------------------------------------------------------------------ laws
 Generated == {c[2] : c \in {x \in cls : x[1] \in {"m", "e"}}}
